@@ -29,6 +29,40 @@ MIN_OBLIGATIONS = 14
 def build(chk):
     c_tmunu(chk)
     c_getdeltas(chk)
+    c_helpers_do_not_touch_the_deviation(chk)
+
+
+def c_helpers_do_not_touch_the_deviation(chk):
+    """getDeltas hands the SAME array deltaF first to estimateTruncationError and then to the moment integrals (and returns it).  The contract
+    of estimateTruncationError used there - it returns a number - therefore has a frame: the array it is given is not modified, in any of
+    the four basis configurations (Polynomial does not copy its input and changeBasis only reallocates the axes whose basis changes, so the
+    configurations differ in what is aliased).  Run with the real Polynomial / Grid code on the M = N = 3 grid."""
+    from .C12_boltzmann import make_solver
+    from .C16_polynomial import EXT
+    from wgvc.interp import enumerate_paths
+    fn = "boltzmann.BoltzmannSolver.estimateTruncationError"
+    chk.under_contract("boltzmann", "BoltzmannSolver.estimateTruncationError")
+    for basisM, basisN in (("Chebyshev", "Chebyshev"), ("Cardinal", "Chebyshev"), ("Chebyshev", "Cardinal"), ("Cardinal", "Cardinal")):
+        orig = np.empty((1, 2, 2, 2), dtype=object)
+        for idx in np.ndindex(orig.shape):
+            orig[idx] = real("dF_" + "".join(map(str, idx)))
+
+        def body(it, basisM=basisM, basisN=basisN, orig=orig):
+            bs, grid = make_solver(it, "Spectral", basisM, basisN)
+            bs.attrs["offEqParticles"] = bs.attrs["offEqParticles"][:1]
+            arr = orig.copy()
+            it.assume(Gt(sum(abs(x) for x in orig.reshape(-1)), 0))
+            r = it.call_method(bs, "estimateTruncationError", [arr], {})
+            return (r, arr), {}
+        paths = [p for p in enumerate_paths(body, externals=EXT, config={"fork_abs": False}) if p.outcome == "return"]
+        chk.path_count += len(paths)
+        if not paths:
+            chk.undecided.append(f"estimateTruncationError[{basisM},{basisN}]: no returning path")
+            continue
+        p = paths[0]
+        _, arr = p.value
+        same = arr.shape == orig.shape and all(a is b or a == b for a, b in zip(arr.reshape(-1), orig.reshape(-1)))
+        chk.vc(f"estimateTruncationError.{basisM}-{basisN}.argument-not-modified", [], sym.to_sym(bool(same)), func=fn, kind="frame")
 
 
 def c_tmunu(chk):
